@@ -2,6 +2,7 @@ package sym
 
 import (
 	"fmt"
+	"os"
 	"go/constant"
 	"go/token"
 	"go/types"
@@ -369,8 +370,11 @@ func (e *Engine) execBlock(fr *frame, p *pend, push func(*pend), rets *[]retInfo
 		regs[v] = val
 	}
 	c := e.C
+	if os.Getenv("VERIF_TRACE") != "" {
+		fmt.Fprintf(os.Stderr, "TRACE %s block %d iters %v nodes=%d heap=%d\n", fr.fn.Name(), p.b.Index, p.iters, e.C.NumNodes(), len(p.st.Heap))
+	}
 	if e.C.NumNodes() > e.Opts.MaxNodes {
-		panic(e.unsupported(fmt.Sprintf("term budget exceeded (%d nodes): a loop or path set is too large for the stated bounds", e.C.NumNodes())))
+		panic(e.unsupported(fmt.Sprintf("term budget exceeded (%d nodes) in %s block %d iters %v: a loop or path set is too large for the stated bounds", e.C.NumNodes(), fr.fn.Name(), p.b.Index, p.iters)))
 	}
 	for _, ins := range p.b.Instrs {
 		if st.G.IsFalse() {
@@ -721,7 +725,12 @@ func (e *Engine) execValue(fr *frame, st *State, regs map[ssa.Value]Value, v ssa
 			panic(e.unsupported("make(chan) with symbolic size"))
 		}
 		o := e.newObj(KChan, x.Type(), int(sz.Val), "chan")
-		st.Heap[o] = &ChanContent{Cap: int(sz.Val), Closed: c.False}
+		cc := &ChanContent{Cap: int(sz.Val), Closed: c.False, Count: c.BV(0, 32)}
+		et := x.Type().Underlying().(*types.Chan).Elem()
+		for i := 0; i < cc.Cap; i++ {
+			cc.Slots = append(cc.Slots, e.zero(et))
+		}
+		st.Heap[o] = cc
 		return mkPtr(c, o)
 	case *ssa.Lookup:
 		return e.lookup(st, x, op(x.X), op(x.Index), where)
